@@ -1,13 +1,83 @@
-(* C05 property theorems.  Statements + exact + Print Assumptions only. *)
+(* C05 property theorems.  Statements + exact + Print Assumptions only.
+   M = the node-vector trie of Model.v (what zipora calls Patricia storage), S = a duplicate-free list of keys. *)
 From ZV.Common Require Import Base Run.
-From ZV.C05 Require Import Model Spec ProofsBase.
+From ZV.C05 Require Import Model Spec ProofsBase ProofsInsert ProofsRemove ProofsRefine.
 Open Scope N_scope.
 
-(* the automaton view agrees with contains, for every node vector (well-formed or not) and every key *)
+(* ptrie_refines_set: for EVERY history of insert / remove / contains / len / accepts / longest_prefix calls
+   over byte-string keys (empty key, prefixes of each other, 0x00 / 0xFF, any length), the trie started empty
+   answers exactly like the set of keys inserted and not removed *)
+Theorem ptrie_refines_set : forall ops, Forall op_ok ops -> p_run true p_empty ops = s_run [] ops.
+Proof. exact ptrie_refines_set_proof. Qed.
+Check ptrie_refines_set : forall ops, Forall op_ok ops -> p_run true p_empty ops = s_run [] ops.
+Print Assumptions ptrie_refines_set.
+
+(* ... and the state reached is related to the set reached (shape invariant, membership, no duplicates, len) *)
+Theorem ptrie_reachable_related : forall ops, Forall op_ok ops -> Rel (p_exec true p_empty ops) (s_exec [] ops).
+Proof. exact ptrie_reachable_related_proof. Qed.
+Check ptrie_reachable_related : forall ops, Forall op_ok ops -> Rel (p_exec true p_empty ops) (s_exec [] ops).
+Print Assumptions ptrie_reachable_related.
+
+(* contains(k) is membership, for every key (bytes or not) *)
+Theorem contains_is_membership : forall st S k, Rel st S -> contains_nodes (p_nodes st) k = mem k S.
+Proof. exact contains_is_membership_proof. Qed.
+Check contains_is_membership : forall st S k, Rel st S -> contains_nodes (p_nodes st) k = mem k S.
+Print Assumptions contains_is_membership.
+
+(* len_is_card: num_keys, maintained from the pre-insert contains() and the removed flag, is the cardinality *)
+Theorem len_is_card : forall st S, Rel st S -> p_len st = N.of_nat (length S) /\ NoDup S.
+Proof. exact len_is_card_proof. Qed.
+Check len_is_card : forall st S, Rel st S -> p_len st = N.of_nat (length S) /\ NoDup S.
+Print Assumptions len_is_card.
+
+Theorem insert_adds_exactly : forall st S k, bytes_ok k -> Rel st S -> Rel (p_insert st k) (s_insert k S).
+Proof. exact rel_insert. Qed.
+Check insert_adds_exactly : forall st S k, bytes_ok k -> Rel st S -> Rel (p_insert st k) (s_insert k S).
+Print Assumptions insert_adds_exactly.
+
+Theorem remove_removes_exactly : forall st S k, Rel st S ->
+  Rel (fst (p_remove st k)) (s_remove k S) /\ snd (p_remove st k) = mem k S.
+Proof. exact rel_remove. Qed.
+Check remove_removes_exactly : forall st S k, Rel st S ->
+  Rel (fst (p_remove st k)) (s_remove k S) /\ snd (p_remove st k) = mem k S.
+Print Assumptions remove_removes_exactly.
+
+(* re-inserting an existing key changes nothing observable *)
+Theorem reinsertion_idempotent : forall st S k, bytes_ok k -> Rel st S -> mem k S = true ->
+  Rel (p_insert st k) S /\ p_len (p_insert st k) = p_len st.
+Proof. exact reinsertion_idempotent_proof. Qed.
+Check reinsertion_idempotent : forall st S k, bytes_ok k -> Rel st S -> mem k S = true ->
+  Rel (p_insert st k) S /\ p_len (p_insert st k) = p_len st.
+Print Assumptions reinsertion_idempotent.
+
+(* deletion followed by re-insertion (through whatever the cleanup unlinked) *)
+Theorem remove_then_reinsert : forall st S k, bytes_ok k -> Rel st S ->
+  Rel (p_insert (fst (p_remove st k)) k) (k :: s_remove k S).
+Proof. exact remove_then_reinsert_proof. Qed.
+Check remove_then_reinsert : forall st S k, bytes_ok k -> Rel st S ->
+  Rel (p_insert (fst (p_remove st k)) k) (k :: s_remove k S).
+Print Assumptions remove_then_reinsert.
+
+(* unlink_preserves_others: the bottom-up cleanup of remove changes no lookup from any node *)
+Theorem unlink_preserves_others : forall rp ns x, bounded ns -> wchain ns rp x -> dead ns x ->
+  forall i k, lookup (cleanup ns rp) i k = lookup ns i k.
+Proof. exact cleanup_lookup. Qed.
+Check unlink_preserves_others : forall rp ns x, bounded ns -> wchain ns rp x -> dead ns x ->
+  forall i k, lookup (cleanup ns rp) i k = lookup ns i k.
+Print Assumptions unlink_preserves_others.
+
+(* fsa_agrees: the automaton view (root / transition / is_final with the default accepts and longest_prefix) *)
 Theorem fsa_accepts_is_contains : forall ns k, fsa_accepts ns k = contains_nodes ns k.
-Proof. intros ns k. rewrite contains_lookup. apply fsa_accepts_lookup. Qed.
+Proof. exact fsa_accepts_is_contains_proof. Qed.
 Check fsa_accepts_is_contains : forall ns k, fsa_accepts ns k = contains_nodes ns k.
 Print Assumptions fsa_accepts_is_contains.
+
+Theorem fsa_agrees : forall st S q, Rel st S ->
+  fsa_accepts (p_nodes st) q = mem q S /\ fsa_longest_prefix (p_nodes st) q = s_longest_prefix S q.
+Proof. exact fsa_agrees_proof. Qed.
+Check fsa_agrees : forall st S q, Rel st S ->
+  fsa_accepts (p_nodes st) q = mem q S /\ fsa_longest_prefix (p_nodes st) q = s_longest_prefix S q.
+Print Assumptions fsa_agrees.
 
 (* under the shape invariant a node is reached from the root by at most one key *)
 Theorem walk_injective : forall ns addr k1 k2 e, inv ns addr -> walk ns 0%nat k1 = Some e -> walk ns 0%nat k2 = Some e -> k1 = k2.
